@@ -3,6 +3,8 @@
    sumor -> OCaml types; fst/snd/andb/orb/negb inlined).  nat, positive, N, Z stay inductive. *)
 Require Extraction.
 Require Import ExtrOcamlBasic.
-From MD Require Import Bytes Generated DecodeDefs.
+From MD Require Import Bytes Generated DecodeDefs HeaderDefs.
 Extraction "mdmodel.ml" Bytes.cview DecodeDefs.base64_decode_raw DecodeDefs.base64_decode
-  DecodeDefs.quoted_printable_decode DecodeDefs.rfc2047_decode.
+  DecodeDefs.quoted_printable_decode DecodeDefs.rfc2047_decode
+  HeaderDefs.parse_message HeaderDefs.get_header HeaderDefs.set_header HeaderDefs.message_write
+  HeaderDefs.searchheader.
